@@ -49,7 +49,7 @@ def task(args):
         s = EP.ImplSession(cache, dflt)
         out = []
         EP.set_global(cache, dflt)
-        first = {"E": ("E", q), "XD": ("XD", q, {}), "XL": ("XL", q, [])}[how]
+        first = {"E": ("E", q), "XD": ("XD", q, {}), "XL": ("XL", q, []), "ED": ("E", q, "described")}[how]
         l1, o1 = s.run(first)
         out.append((l1, {k: v for k, v in o1.items() if k != "metadata"}))
         # cacheable according to the independent reference interpreter (not according to the flags the implementation reports)
@@ -88,7 +88,7 @@ def gen(ctx, per_config):
             ext = pre + "/" + "/".join(H.g_action(rng, 1, False, 0.0) for _ in range(rng.randint(1, 2)))
             if rng.random() < 0.2:
                 q, ext = "/" + q, "/" + ext          # absolute spelling: prefixes and extensions keep the leading slash
-            how = rng.choice(["E", "E", "E", "XD", "XL"])      # empty extra parameters (what the web front-ends always pass) are no extra parameters
+            how = rng.choice(["E", "E", "E", "XD", "XL", "ED"])       # ED: with a description (evaluate_template, GUI)      # empty extra parameters (what the web front-ends always pass) are no extra parameters
             items.append((ci, q, ext, {} if rng.random() < 0.8 else {"a": "dflt"}, how))
     return cfgs, items
 
@@ -102,7 +102,7 @@ def judge(ctx, cfgs, items, results):
         ctx.case(("%s|%s" % (name, q)) if cacheable and q.count("/") >= 1 else None)
         ctx.count("first evaluation", "cacheable" if cacheable else "not cacheable")
         case = dict(kind="reuse", config=name, query=q, extension=ext, defaults=dflt, how=(how_[0] if how_ else "E"))
-        ctx.count("first evaluations", {"E": "plain", "XD": "extra_parameters={}", "XL": "extra_parameters=[]"}[case["how"]])
+        ctx.count("first evaluations", {"E": "plain", "XD": "extra_parameters={}", "XL": "extra_parameters=[]", "ED": "with a description"}[case["how"]])
         ctx.count("spelling", "absolute" if q.startswith("/") else "relative")
         if not cacheable:
             continue
@@ -150,7 +150,7 @@ def run(ctx):
     results = EP.common.pmap(task, items)
     judge(ctx, cfgs, items, results)
     def first(q, how):
-        return {"E": ("E", q), "XD": ("XD", q, {}), "XL": ("XL", q, [])}[how]
+        return {"E": ("E", q), "XD": ("XD", q, {}), "XL": ("XL", q, []), "ED": ("E", q, "described")}[how]
     sessions = [([first(q, how), first(q, how), ("E", ext)], dflt) for ci, q, ext, dflt, how in items]
     kinds = [cfgs[ci][2] for ci, q, ext, dflt, how in items]
     lines = [" | ".join(l for l, _ in out) for out, _, _ in results]
